@@ -1027,6 +1027,22 @@ func expectedAttrs(ds []c15Deriv, rec []sa) []sa {
 	return []sa{{*d.Group, sv{K: "group", Items: inner}}}
 }
 
+// c15LastWins: a key that occurs twice among the attributes of one level (a derived handler's and the record's
+// own): the later one - the record's - is the one printed (the rule of attribute assembly, property C07)
+func c15LastWins(as []sa) []sa {
+	last := map[string]int{}
+	for i, a := range as {
+		last[a.Key] = i
+	}
+	var out []sa
+	for i, a := range as {
+		if last[a.Key] == i {
+			out = append(out, a)
+		}
+	}
+	return out
+}
+
 var c15Msgs = []string{"hello", "two words", "", " ", "\t\n", "q\"uote \\ back", "multi\nline", "é ü 日本", "\xff\xfe", "x=1,y={2}", "trailing\n"}
 
 type c15HandleObs struct {
@@ -1225,7 +1241,7 @@ func c15Handle(r *Run, snap *slog.VerifRegistry, c c15Case) {
 			wantShape = "ShColor"
 		}
 		_, std := c15Std[c.Z]
-		wantAttrs := expectedAttrs(c.Ds, resolveAttrs(recAttrs))
+		wantAttrs := c15LastWins(expectedAttrs(c.Ds, resolveAttrs(recAttrs)))
 		switch {
 		case e.Dest != 1:
 			fail(dkey("C15/destination"), "the record went to the package default writers (stdout/stderr) instead of the logger's writers: "+string(e.Payload))
@@ -1337,6 +1353,13 @@ func c15Handle(r *Run, snap *slog.VerifRegistry, c c15Case) {
 		O any
 	}{c15Case{Kind: c.Kind, Z: c.Z, L: c.L, Attrs: c.Attrs, Msg: c.Msg, JSON0: c.JSON0, Color0: c.Color0, DefLevel: c.DefLevel, NilOpts: c.NilOpts,
 		NoColor: c.NoColor, NoSource: c.NoSource, JSON: c.JSON, OptLevel: c.OptLevel, Ds: c.Ds, Via: c.Via, Sec: c.Sec, Nsec: c.Nsec, Zone: c.Zone, ZeroTime: c.ZeroTime}, nil})
+	if all := expectedAttrs(c.Ds, resolveAttrs(recAttrs)); len(c15LastWins(all)) != len(all) {
+		// a key of a derived handler repeated by the record: judged by the direct oracle only (the correspondence
+		// model of C15 compares sibling sets with unique keys; duplicate keys are property C07's business)
+		r.Dist["handle_duplicate_key_handler_vs_record"]++
+		r.Count(true, string(b))
+		return
+	}
 	r.AddCase(term, c, derived || !std, string(b))
 }
 
@@ -1428,6 +1451,27 @@ func genHandleCase(r *Run, maxDepth int) c15Case {
 		}
 	}
 	c.Attrs = g.attrs(depth, depth+maxDepth, 5)
+	// every fifth case with derivations and no group among them: the record's first leaf attribute takes the key
+	// of a leaf attribute of the first WithAttrs (the record's own value is the one that must be printed)
+	if len(c.Ds) > 0 && len(c.Attrs) > 0 && rg.Chance(20) {
+		noGroup := true
+		for _, d := range c.Ds {
+			if d.Group != nil {
+				noGroup = false
+			}
+		}
+		if noGroup && len(c.Ds[0].Attrs) > 0 && c.Ds[0].Attrs[0].Val.K != "group" && c.Attrs[0].Val.K != "group" {
+			dup := false
+			for _, a := range c.Attrs[1:] {
+				if a.Key == c.Ds[0].Attrs[0].Key {
+					dup = true
+				}
+			}
+			if !dup {
+				c.Attrs[0].Key = c.Ds[0].Attrs[0].Key
+			}
+		}
+	}
 	return c
 }
 
@@ -1482,7 +1526,7 @@ func runC15(r *Run) {
 		}
 	}
 	// the bridge
-	msgs := [][]byte{[]byte("m1"), []byte("m2\n"), {}, []byte("\n"), []byte("a\n\n"), []byte("x\xff\x80y\n"), []byte("two\nlines"), []byte(" \t"), []byte("é\n")}
+	msgs := [][]byte{[]byte("m1"), []byte("m2\n"), {}, []byte("\n"), []byte("a\n\n"), []byte("progress 50%\r"), []byte("dos line\r\n"), []byte("\r"), []byte("table:\n\n\n"), []byte("x\xff\x80y\n"), []byte("two\nlines"), []byte(" \t"), []byte("é\n")}
 	for L := 0; L < 12; L++ {
 		for sev := 0; sev < 12; sev++ {
 			for _, dbg := range []bool{false, true} {
